@@ -3,10 +3,12 @@
  * ascon-trng-mixer.c; the harness provides a scripted ascon_trng_generate_32/64.
  * usage: c10 words | perm <N> <tier> | aead <alg> <tier> | keys */
 #include "hx.h"
+#ifndef C10_WORDS_ONLY
 #include "api.h"
-#include "masking/ascon-masked-word.h"
 #include "masking/ascon-masked-state.h"
 #include <ascon/permutation.h>
+#endif
+#include "masking/ascon-masked-word.h"
 
 /* ---------------- scripted random source ---------------- */
 enum { T_ZERO, T_ONES, T_P2, T_P3, T_WALK, T_COUNTER, T_MIX, T_EXPLICIT, T_NMODES };
@@ -153,6 +155,7 @@ static void words_mode(void)
     hx_sample("word toolkit x2..x%d: zero/load/load_partial(1..7)/load_32/store/store_partial(0..7)/randomize/xor/replace(0..7)/from_xN/pad/separator; every random word over {0,~0,64 unit bits,8000..01,dense} one at a time + all {0,~0,dense} combinations", ASCON_MASKED_MAX_SHARES);
 }
 
+#ifndef C10_WORDS_ONLY
 /* ---------------- masked permutations and state conversions ---------------- */
 typedef struct { void (*permute)(ascon_masked_state_t *, uint8_t, uint64_t *); void (*from_x1)(ascon_masked_state_t *, const ascon_state_t *, ascon_trng_state_t *); void (*to_x1)(ascon_state_t *, const ascon_masked_state_t *);
                  void (*randomize)(ascon_masked_state_t *, ascon_trng_state_t *); void (*from[5])(ascon_masked_state_t *, const ascon_masked_state_t *, ascon_trng_state_t *); } stateops;
@@ -293,18 +296,25 @@ static void keys_mode(void)
     hx_sample("masked keys 128/160: mask->extract identity and randomize (value preserved, every share refreshed) for 40 keys x 7 tape generators, %d key shares", ASCON_MASKED_KEY_SHARES);
 }
 
+#endif /* !C10_WORDS_ONLY */
+
 int main(int argc, char **argv)
 {
-    hx_init(); setup_ops(); setup_state();
+    hx_init(); setup_ops();
+#ifndef C10_WORDS_ONLY
+    setup_state();
+#endif
     if (argc < 2) return 2;
     VALS[NVALS++] = 0; VALS[NVALS++] = ~(uint64_t)0; VALS[NVALS++] = 0x8000000000000001ULL; VALS[NVALS++] = 0x0123456789ABCDEFULL; VALS[NVALS++] = hx_mix(hx_seed + 5); VALS[NVALS++] = hx_mix(hx_seed + 6);
     for (int i = 0; i < 64; i++) VALS[NVALS++] = (uint64_t)1 << i;
     TW[NTW++] = 0; TW[NTW++] = ~(uint64_t)0; TW[NTW++] = 0x8000000000000001ULL; TW[NTW++] = 0xB7E151628AED2A6AULL; TW[NTW++] = 0x452821E638D01377ULL;
     for (int i = 0; i < 64; i++) TW[NTW++] = (uint64_t)1 << i;
     if (!strcmp(argv[1], "words")) words_mode();
+#ifndef C10_WORDS_ONLY
     else if (!strcmp(argv[1], "perm")) perm_mode(atoi(argv[2]), atoi(argv[3]));
     else if (!strcmp(argv[1], "aead")) aead_mode(atoi(argv[2]), atoi(argv[3]));
     else keys_mode();
+#endif
     hx_finish();
     return 0;
 }
